@@ -1,43 +1,31 @@
 (** C06: the ownership-tracked model (Model/Own.v) erases to [step] /
-    [walk_stride]; no write the engine performs changes the contents of the
-    caller's bindings map; every state in a returned stride holds a freshly
-    allocated map. *)
+    [walk_stride]; no write the engine performs - and no in-place write an
+    action function performs on the map it is handed - changes the contents
+    of the caller's bindings map; every state in a returned stride holds a
+    freshly allocated map.  Both hold for EVERY behaviour of actions and
+    guards, including functions that mutate the map they are given and
+    functions that hand it back: FuncAction.Exec hands them a copy.  With the
+    wiring Exec had before the repair (the function works on the very map
+    Exec was given) the first claim is false: [old_wiring_refuted]. *)
 From Coq Require Import Lia.
 From Sheens Require Import Model.Step Model.Own Spec.WalkSpec
      Proofs.SndBasics Proofs.SndSorted Proofs.StepFacts.
-
-(** * Writing a binding that is already there *)
-Lemma bset_same k v : forall bs : bindings,
-  sorted_keys bs = true -> In (k, v) bs -> bset k v bs = bs.
-Proof.
-  induction bs as [|[k1 v1] r IH]; intros Hs Hin; [destruct Hin|].
-  cbn [bset]. destruct (String.compare k k1) eqn:C.
-  - apply String.compare_eq_iff in C. subst k1.
-    destruct Hin as [E | Hin]; [inversion E; reflexivity|].
-    exfalso. pose proof (sorted_lt_all k v1 r Hs k (in_map fst _ _ Hin)) as H.
-    rewrite ltb_irrefl in H. discriminate.
-  - exfalso. destruct Hin as [E | Hin].
-    + inversion E. subst. rewrite string_compare_refl in C. discriminate.
-    + pose proof (sorted_lt_all k1 v1 r Hs k (in_map fst _ _ Hin)) as H.
-      unfold String.ltb in H. rewrite String.compare_antisym, C in H. discriminate.
-  - destruct Hin as [E | Hin].
-    + inversion E. subst. rewrite string_compare_refl in C. discriminate.
-    + rewrite (IH (sorted_keys_tail _ _ _ Hs) Hin). reflexivity.
-Qed.
 
 Section OwnProofs.
   Variable action : Type.
   Variable run : action -> option bindings -> exec_raw.
   Variable same : action -> option bindings -> bool.
+  Variable mutates : action -> option bindings -> bool.
 
-  Notation func_execT := (func_execT action run same).
-  Notation guard_loopT := (guard_loopT action run same).
-  Notation try_branchT := (try_branchT action run same).
-  Notation first_branchT := (first_branchT action run same).
-  Notation considerT := (considerT action run same).
-  Notation continueT := (continueT action run same).
-  Notation stepT := (stepT action run same).
-  Notation walk_strideT := (walk_strideT action run same).
+  Notation func_exec_on := (func_exec_on action run same mutates).
+  Notation func_execT := (func_execT action run same mutates).
+  Notation guard_loopT := (guard_loopT action func_execT).
+  Notation try_branchT := (try_branchT action func_execT).
+  Notation first_branchT := (first_branchT action func_execT).
+  Notation considerT := (considerT action func_execT).
+  Notation continueT := (continueT action func_execT).
+  Notation stepT := (stepT action run same mutates).
+  Notation walk_strideT := (walk_strideT action run same mutates).
 
   Definition has_map (t : tbs) : Prop := exists b, t_val t = Some b.
 
@@ -57,21 +45,36 @@ Section OwnProofs.
   Definition ot_val (ot : option tbs) : option bindings :=
     match ot with Some t => t_val t | None => None end.
 
+  (** the copy handed to the action function has the contents of the original *)
+  Lemma func_exec_on_erase a perm g :
+    let '((ot, em), err, _) := func_exec_on a perm g in
+    (match xr_exe (run a (t_val g)) with
+     | None => ((None, []), xr_err (run a (t_val g)))
+     | Some (ob, em) => ((option_map (restore perm) ob, em), xr_err (run a (t_val g)))
+     end) = ((ot_val ot, em), err) /\
+    (forall t', ot = Some t' -> has_map t').
+  Proof.
+    unfold Own.func_exec_on.
+    destruct (xr_exe (run a (t_val g))) as [[[b|] em]|].
+    - pose proof (t_restore_val perm
+                                (mk_tbs (if same a (t_val g) then t_own g else Fresh) (Some b)) b eq_refl) as [Hv _].
+      destruct (t_restore perm (mk_tbs (if same a (t_val g) then t_own g else Fresh) (Some b))) as [t' l].
+      cbn [fst] in Hv. cbn [ot_val option_map]. rewrite Hv. split; [reflexivity|].
+      intros t'' H. inversion H. subst. eexists. exact Hv.
+    - split; [reflexivity | discriminate].
+    - split; [reflexivity | discriminate].
+  Qed.
+
   Lemma func_execT_erase a t :
     let '((ot, em), err, _) := func_execT a t in
     func_exec action run a (t_val t) = ((ot_val ot, em), err) /\
     (forall t', ot = Some t' -> has_map t').
   Proof.
-    unfold Own.func_execT, func_exec.
-    set (perm := permanent_of (t_val t)).
-    destruct (xr_exe (run a (t_val t))) as [[[b|] em]|].
-    - pose proof (t_restore_val perm
-                                (mk_tbs (if same a (t_val t) then t_own t else Fresh) (Some b)) b eq_refl) as [Hv _].
-      destruct (t_restore perm (mk_tbs (if same a (t_val t) then t_own t else Fresh) (Some b))) as [t' l].
-      cbn [fst] in Hv. cbn [ot_val option_map]. rewrite Hv. split; [reflexivity|].
-      intros t'' H. inversion H. subst. eexists. exact Hv.
-    - split; [reflexivity | discriminate].
-    - split; [reflexivity | discriminate].
+    unfold Own.func_execT, func_exec, t_copy. cbv zeta.
+    set (perm := permanent_of (t_val t)). clearbody perm.
+    destruct (t_val t) as [b0|].
+    - exact (func_exec_on_erase a perm (mk_tbs Fresh (Some b0))).
+    - exact (func_exec_on_erase a perm (mk_tbs Fresh None)).
   Qed.
 
   Definition erase_choice (c : option (option tbs)) : option (option bindings) :=
@@ -182,7 +185,7 @@ Section OwnProofs.
   Theorem stepT_erase s st pending :
     erase_out (stepT s st pending) = plain_out (step action run s (erase_state st) pending).
   Proof.
-    rewrite step_unfold. unfold Own.stepT. cbn [erase_state st_node st_bs].
+    rewrite step_unfold. unfold Own.stepT, Own.step_via. cbn [erase_state st_node st_bs].
     destruct (negb (sp_compiled s)); [reflexivity|].
     destruct (find_node (ts_node st) (sp_nodes s)) as [n|]; [|reflexivity].
     cbv zeta.
@@ -210,7 +213,8 @@ Section OwnProofs.
     erase_stride (fst (walk_strideT s st pendings)) =
     fst (walk_stride action run s (erase_state st) pendings).
   Proof.
-    unfold Own.walk_strideT, walk_stride. cbv zeta.
+    unfold Own.walk_strideT, Own.walk_stride_via, walk_stride. cbv zeta.
+    change (step_via action func_execT s st (peek pendings)) with (stepT s st (peek pendings)).
     pose proof (stepT_erase s st (peek pendings)) as H. unfold erase_out, plain_out in H.
     inversion H as [[Hs He]]. clear H Hs He.
     destruct (tso_err (stepT s st (peek pendings))) as [e|].
@@ -225,13 +229,10 @@ Section OwnProofs.
 
   (** * Ownership *)
 
-  (** the caller's map: its contents [c0], key-sorted as every bindings map of the model *)
+  (** the caller's map: its contents [c0].  Nothing is assumed of [run],
+      [same] and [mutates]: an action or guard function may overwrite or
+      delete bindings in the map it is handed, and may hand that map back. *)
   Variable c0 : option bindings.
-  Hypothesis c0_sorted : sorted_keys (copy_bs c0) = true.
-  (** an action that hands back the map it was given has not changed it
-      (otherwise the action itself, not the engine, wrote to the caller's state) *)
-  Hypothesis same_unchanged :
-    forall a bs, same a bs = true -> exists em, xr_exe (run a bs) = Some (bs, em).
 
   Definition tinv (t : tbs) : Prop := t_own t = Caller -> t_val t = c0.
   Definition log_ok (l : wlog) : Prop := Forall (fun w => fst w = Caller -> snd w = false) l.
@@ -249,21 +250,6 @@ Section OwnProofs.
     constructor; [|constructor]. cbn. rewrite H. discriminate.
   Qed.
 
-  (** restoring bindings that are all present (with these values) in a sorted map: no change *)
-  Lemma t_restore_present perm : forall o b,
-    sorted_keys b = true -> (forall k v, In (k, v) perm -> In (k, v) b) ->
-    let r := t_restore perm (mk_tbs o (Some b)) in
-    fst r = mk_tbs o (Some b) /\ Forall (fun w => snd w = false) (snd r).
-  Proof.
-    induction perm as [|[k v] r IH]; intros o b Hs Hin; [split; [reflexivity | constructor]|].
-    cbn [t_restore]. unfold t_extend. cbn [t_val copy_bs t_own].
-    rewrite (bset_same k v b Hs (Hin k v (or_introl eq_refl))).
-    destruct (IH o b Hs (fun k' v' H => Hin k' v' (or_intror H))) as [H1 H2].
-    destruct (t_restore r (mk_tbs o (Some b))) as [t2 l2]. cbn in *. subst t2.
-    split; [reflexivity|]. constructor; [|exact H2].
-    cbn [snd]. apply negb_false_iff. exact (json_eqb_refl (JObj b)).
-  Qed.
-
   Lemma t_restore_fresh perm : forall t,
     t_own t = Fresh ->
     log_ok (snd (t_restore perm t)) /\ t_own (fst (t_restore perm t)) = Fresh.
@@ -275,39 +261,58 @@ Section OwnProofs.
     split; [apply log_ok_app; assumption | exact Ho2].
   Qed.
 
+  (** a.F and the restore loop, when the function is handed a [Fresh] map:
+      every write - the function's own included - goes to a [Fresh] map, and
+      the returned map is [Fresh] whether or not the function handed its
+      argument back *)
+  Lemma func_exec_on_fresh a perm g :
+    t_own g = Fresh ->
+    let '((ot, _), _, l) := func_exec_on a perm g in
+    log_ok l /\ (forall t', ot = Some t' -> t_own t' = Fresh).
+  Proof.
+    intros Hg. unfold Own.func_exec_on.
+    assert (Hw : log_ok (action_writes action mutates a g)).
+    { unfold action_writes. destruct (t_val g); [|apply log_ok_nil].
+      destruct (mutates a _); [|apply log_ok_nil].
+      constructor; [|constructor]. cbn. rewrite Hg. discriminate. }
+    destruct (xr_exe (run a (t_val g))) as [[[b|] em]|];
+      try (split; [exact Hw | discriminate]).
+    assert (Hret : t_own (mk_tbs (if same a (t_val g) then t_own g else Fresh) (Some b)) = Fresh).
+    { cbn. rewrite Hg. destruct (same a (t_val g)); reflexivity. }
+    destruct (t_restore_fresh perm _ Hret) as [Hl Ho].
+    destruct (t_restore perm (mk_tbs (if same a (t_val g) then t_own g else Fresh) (Some b))) as [t' l].
+    cbn [fst snd] in *.
+    split; [apply log_ok_app; assumption|]. intros t'' E. inversion E. subst. exact Ho.
+  Qed.
+
+  (** FuncAction.Exec: whatever the tag of the map it is given *)
+  Lemma func_execT_fresh a t :
+    let '((ot, _), _, l) := func_execT a t in
+    log_ok l /\ (forall t', ot = Some t' -> t_own t' = Fresh).
+  Proof.
+    unfold Own.func_execT. cbv zeta.
+    destruct (t_val t); apply func_exec_on_fresh; reflexivity.
+  Qed.
+
+  (** the function's own write is in the log, against the copy it was handed *)
+  Lemma func_execT_logs_mutation a t b :
+    t_val t = Some b -> mutates a (Some b) = true ->
+    In (Fresh, true) (snd (func_execT a t)).
+  Proof.
+    intros Hb Hm. unfold Own.func_execT, Own.func_exec_on, action_writes, t_copy. cbv zeta.
+    rewrite Hb. cbn [t_val t_own copy_bs]. rewrite Hm.
+    destruct (xr_exe (run a (Some b))) as [[[b'|] em]|]; try (left; reflexivity).
+    destruct (t_restore _ _) as [t' l]. cbn [snd]. left. reflexivity.
+  Qed.
+
   Lemma func_execT_own a t :
     tinv t ->
     let '((ot, _), _, l) := func_execT a t in
     log_ok l /\ (forall t', ot = Some t' -> tinv t').
   Proof.
-    intros Hinv. unfold Own.func_execT.
-    set (perm := permanent_of (t_val t)).
-    assert (Hperm : forall k v, In (k, v) perm -> In (k, v) (copy_bs (t_val t))).
-    { intros k v H. unfold perm, permanent_of in H. destruct exp_permanent_bindings; [|destruct H].
-      apply filter_In in H. exact (proj1 H). }
-    clearbody perm.
-    destruct (xr_exe (run a (t_val t))) as [[[b|] em]|] eqn:Ex;
-      try (split; [apply log_ok_nil | discriminate]).
-    destruct (same a (t_val t)) eqn:Es.
-    - (* handed back the given map *)
-      destruct (same_unchanged a (t_val t) Es) as [em' Hx]. rewrite Ex in Hx. inversion Hx as [[Hb Hem]].
-      destruct (t_own t) eqn:Eo.
-      + (* the caller's map: restoring changes nothing *)
-        assert (Hc0 : c0 = Some b) by (rewrite <- (Hinv Eo); symmetry; exact Hb).
-        assert (Hs : sorted_keys b = true) by (rewrite Hc0 in c0_sorted; exact c0_sorted).
-        assert (Hin : forall k v, In (k, v) perm -> In (k, v) b).
-        { intros k v H. apply Hperm in H. rewrite <- Hb in H. exact H. }
-        pose proof (t_restore_present perm Caller b Hs Hin) as H. cbv zeta in H. destruct H as [H1 H2].
-        destruct (t_restore perm (mk_tbs Caller (Some b))) as [t' l]. cbn [fst snd] in *. subst t'.
-        split.
-        * unfold log_ok. eapply Forall_impl; [|exact H2]. intros w Hw _. exact Hw.
-        * intros t' E. inversion E. subst. intros _. cbn. symmetry. exact Hc0.
-      + destruct (t_restore_fresh perm (mk_tbs Fresh (Some b)) eq_refl) as [Hl Ho].
-        destruct (t_restore perm (mk_tbs Fresh (Some b))) as [t' l]. cbn [fst snd] in *.
-        split; [exact Hl|]. intros t'' E. inversion E. subst. intros Hc. rewrite Ho in Hc. discriminate.
-    - destruct (t_restore_fresh perm (mk_tbs Fresh (Some b)) eq_refl) as [Hl Ho].
-      destruct (t_restore perm (mk_tbs Fresh (Some b))) as [t' l]. cbn [fst snd] in *.
-      split; [exact Hl|]. intros t'' E. inversion E. subst. intros Hc. rewrite Ho in Hc. discriminate.
+    intros _. pose proof (func_execT_fresh a t) as H.
+    destruct (func_execT a t) as [[[ot em] err] l]. destruct H as [Hl Ho].
+    split; [exact Hl|]. intros t' E Hc. rewrite (Ho t' E) in Hc. discriminate.
   Qed.
 
   Lemma guard_loopT_own g cs :
@@ -412,7 +417,7 @@ Section OwnProofs.
     let o := stepT s st pending in
     log_ok (tso_log o) /\ (forall sd, tso_stride o = Some sd -> stride_fresh sd).
   Proof.
-    intros Hinv. unfold Own.stepT.
+    intros Hinv. unfold Own.stepT, Own.step_via.
     destruct (negb (sp_compiled s)); [split; [apply log_ok_nil | discriminate]|].
     destruct (find_node (ts_node st) (sp_nodes s)) as [n|]; [|split; [apply log_ok_nil | discriminate]].
     cbv zeta.
@@ -442,7 +447,8 @@ Section OwnProofs.
     tinv (ts_bs st) ->
     log_ok (snd (walk_strideT s st pendings)) /\ stride_fresh (fst (walk_strideT s st pendings)).
   Proof.
-    intros Hinv. unfold Own.walk_strideT.
+    intros Hinv. unfold Own.walk_strideT, Own.walk_stride_via.
+    change (step_via action func_execT s st (peek pendings)) with (stepT s st (peek pendings)).
     pose proof (stepT_own s st (peek pendings) Hinv) as [Hl Hs].
     assert (H0 : stride_fresh (mk_tstride (t_copy_state st) None None [])).
     { split; [reflexivity | cbn; discriminate]. }
@@ -461,3 +467,87 @@ Section OwnProofs.
     - split; assumption.
   Qed.
 End OwnProofs.
+
+(** * The wiring FuncAction.Exec had before the repair is refuted
+
+    A native action function works in place on the map it is handed.  The
+    witness deletes the binding "x" and returns the bindings it was given
+    (the harness renders [Native (mk_prog [ADel "x"] TRetBindings) _] as the
+    Go closure  delete(bs, "x"); return core.NewExecution(bs), nil ).
+    [native_same] / [native_mutates] describe the native rendering of the
+    action language of Model/Action.v: the closure hands its argument back
+    when the program returns _.bindings, and has changed it when its
+    operations changed it. *)
+From Sheens Require Import Model.Action.
+
+Definition native_same (a : act) (bs : option bindings) : bool :=
+  match a with
+  | Native p _ => match pg_term p with TRetBindings => true | _ => false end
+  | Js _ => false
+  end.
+
+Definition native_mutates (a : act) (bs : option bindings) : bool :=
+  match a, bs with
+  | Native p _, Some b =>
+      match run_ops (pg_ops p) bs [] with
+      | (Some b', _, _) => negb (bindings_eqb b b')
+      | _ => false
+      end
+  | _, _ => false
+  end.
+
+Definition del_in_place : act := Native (mk_prog [ADel "x"] TRetBindings) false.
+Definition del_caller_map : tbs := mk_tbs Caller (Some [("x", JNum 4); ("y", JNum 4)]).
+Definition del_spec : aspec := mk_spec [("start", mk_node (Some del_in_place) false None)] false "" true.
+
+(** with the action function working on the very map Exec was given, a
+    write that changes a [Caller] map does occur ... *)
+Theorem old_wiring_refuted :
+  exists (a : act) (t : tbs),
+    tinv (t_val t) t /\ t_own t = Caller /\
+    In (Caller, true) (snd (func_execT_old act run_act native_same native_mutates a t)).
+Proof.
+  exists del_in_place, del_caller_map.
+  split; [intros _; reflexivity|]. split; [reflexivity|].
+  vm_compute. left. reflexivity.
+Qed.
+
+(** ... so the log is not [log_ok], for FuncAction.Exec and for a whole step ... *)
+Lemma caller_write_not_ok l : In (Caller, true) l -> ~ log_ok l.
+Proof.
+  intros Hin Hok. unfold log_ok in Hok. rewrite Forall_forall in Hok.
+  specialize (Hok _ Hin eq_refl). discriminate.
+Qed.
+
+Theorem old_wiring_step_refuted :
+  let st := mk_tstate "start" del_caller_map in
+  tinv (t_val del_caller_map) (ts_bs st) /\
+  In (Caller, true) (tso_log (stepT_old act run_act native_same native_mutates del_spec st None)) /\
+  ~ log_ok (tso_log (stepT_old act run_act native_same native_mutates del_spec st None)).
+Proof.
+  cbv zeta. split; [intros _; reflexivity|].
+  assert (H : In (Caller, true)
+                 (tso_log (stepT_old act run_act native_same native_mutates del_spec
+                                     (mk_tstate "start" del_caller_map) None))).
+  { vm_compute. left. reflexivity. }
+  split; [exact H | exact (caller_write_not_ok _ H)].
+Qed.
+
+(** ... and the statement proved above for the repaired wiring ([stepT_own],
+    first half) is false of the old one *)
+Theorem old_wiring_no_theorem :
+  ~ (forall (action : Type) run same mutates (c0 : option bindings)
+            (s : spec action) (st : tstate) (pending : option json),
+       tinv c0 (ts_bs st) ->
+       log_ok (tso_log (stepT_old action run same mutates s st pending))).
+Proof.
+  intros H. destruct old_wiring_step_refuted as [Hinv [_ Hno]].
+  exact (Hno (H act run_act native_same native_mutates _ del_spec _ None Hinv)).
+Qed.
+
+(** the same behaviour under the repaired wiring: the function's write goes
+    to the copy *)
+Example repaired_wiring_same_witness :
+  snd (func_execT act run_act native_same native_mutates del_in_place del_caller_map) = [(Fresh, true)] /\
+  snd (func_execT_old act run_act native_same native_mutates del_in_place del_caller_map) = [(Caller, true)].
+Proof. vm_compute. split; reflexivity. Qed.
